@@ -13,8 +13,10 @@ package props
 import (
 	"fmt"
 	"testing"
+	"time"
 
 	"github.com/Comcast/rulio/core"
+	"github.com/Comcast/rulio/sys"
 	"pgregory.net/rapid"
 
 	"verif/harness/vlib"
@@ -25,6 +27,11 @@ type c09Case struct {
 	NLocs int    `json:"nlocs"`
 	Loops bool   `json:"loops"` // SetParents may create cycles
 	Ops   []op   `json:"ops"`
+	// Sys: 0 = the locations are served by a core.SimpleLocationProvider;
+	// 1-3 = by a sys.System (which is then the provider that resolves the
+	// parents) with location TTL forever / never / 1 ms; with TTL never
+	// every request works on a location freshly loaded from storage.
+	Sys int `json:"sys,omitempty"`
 }
 
 var c09Locs = []string{"A", "B", "C", "D", "E"}
@@ -34,6 +41,7 @@ func genC09(t *rapid.T) c09Case {
 	c.Kind = rapid.SampledFrom([]string{"indexed", "linear"}).Draw(t, "kind")
 	c.NLocs = rapid.IntRange(3, 5).Draw(t, "nlocs")
 	c.Loops = rapid.IntRange(0, 3).Draw(t, "loops?") == 0
+	c.Sys = rapid.SampledFrom([]int{0, 0, 1, 2, 3}).Draw(t, "sys")
 	locs := c09Locs[:c.NLocs]
 	n := rapid.IntRange(3, 22).Draw(t, "nops")
 	for i := 0; i < n; i++ {
@@ -96,12 +104,41 @@ func runC09(c c09Case) *vlib.Outcome {
 	}
 	locs := c09Locs[:c.NLocs]
 	w := newWorld(c.Kind, nil, o)
+	if c.Sys > 0 {
+		ttl := map[int]time.Duration{1: sys.Forever, 2: sys.Never, 3: time.Millisecond}[c.Sys]
+		s, err := c17System(c.Kind == "linear", false, ttl)
+		if err != nil {
+			o.Fail("NEWSYSTEM", "%v", err)
+			return o
+		}
+		w.engine = s
+		if st, err := s.PeekStorage(newCtx()); err == nil && st != nil {
+			w.store = st
+		}
+		o.Label(fmt.Sprintf("sys-%d", c.Sys))
+	}
 	for _, l := range locs {
 		if _, err := w.open(l); err != nil {
 			o.Fail("OPEN", "%v", err)
 			return o
 		}
 	}
+	// refresh: what a request through the System would work on
+	refresh := func() bool {
+		if c.Sys < 2 {
+			return true
+		}
+		for _, l := range locs {
+			loc, err := w.build(l)
+			if err != nil {
+				o.Fail("GETLOCATION", "System.GetLocation(%q) failed: %v", l, err)
+				return false
+			}
+			w.locs[l] = loc
+		}
+		return true
+	}
+	notFound := func(err error) bool { _, nf := err.(*core.NotFoundError); return nf }
 	patterns := []M{{"at": "?where"}, {"v": "x"}}
 	events := []M{{"go": "1"}, {"go": "2"}}
 	changedParentsThenInherited, deep, loop := false, false, false
@@ -110,7 +147,11 @@ func runC09(c c09Case) *vlib.Outcome {
 		if _, have := w.locs[x.Loc]; !have {
 			continue
 		}
-		when := fmt.Sprintf("[%s n=%d] after op %d %s", c.Kind, c.NLocs, i, vlib.JSON(x))
+		when := fmt.Sprintf("[%s n=%d sys=%d] after op %d %s", c.Kind, c.NLocs, c.Sys, i, vlib.JSON(x))
+		if !refresh() {
+			return o
+		}
+		_, inModel := w.model[x.Loc].Items[x.Id]
 		switch x.K {
 		case "setParents":
 			if err := w.setParents(x.Loc, x.L); err != nil {
@@ -122,7 +163,9 @@ func runC09(c c09Case) *vlib.Outcome {
 				o.Fail("ADD_ERROR", "%s: %v", when, r.Err)
 			}
 		case "remFact":
-			if r := w.remFact(x.Loc, x.Id); r.Err != nil {
+			// (the System installs the cron hooks, with which removing an
+			// id that is not there reports not-found)
+			if r := w.remFact(x.Loc, x.Id); r.Err != nil && !(c.Sys > 0 && !inModel && notFound(r.Err)) {
 				o.Fail("REM_ERROR", "%s: %v", when, r.Err)
 			}
 		case "addRule":
@@ -140,11 +183,12 @@ func runC09(c c09Case) *vlib.Outcome {
 				envRule[x.Id] = x.B
 			}
 		case "remRule":
-			if r := w.remRule(x.Loc, x.Id); r.Err != nil {
+			if r := w.remRule(x.Loc, x.Id); r.Err != nil && !(c.Sys > 0 && !inModel && notFound(r.Err)) {
 				o.Fail("REMRULE_ERROR", "%s: %v", when, r.Err)
 			}
 		case "enable":
-			if r := w.enableRule(x.Loc, x.Id, x.B); r.Err != nil {
+			_, flagged := w.model[x.Loc].Items[propId(x.Id, "disabled")]
+			if r := w.enableRule(x.Loc, x.Id, x.B); r.Err != nil && !(c.Sys > 0 && x.B && !flagged && notFound(r.Err)) {
 				o.Fail("ENABLE_ERROR", "%s: %v", when, r.Err)
 			}
 		}
@@ -152,6 +196,9 @@ func runC09(c c09Case) *vlib.Outcome {
 			return o
 		}
 		// observe every location
+		if !refresh() {
+			return o
+		}
 		for _, ln := range locs {
 			order, ok := w.ancestors(ln)
 			lwhen := when + " observing " + ln
